@@ -60,6 +60,8 @@ var handCorpus = []string{
 	`<% let f = fn() { n0 = n0 + 5  return n0 } %><%= f() %><%= f() %>|<%= n0 %>`,
 	// array + x computed from an array of the (shared) context that has spare capacity: a new array every time
 	`<% let ys = sx + gid %><%= ys %>|<%= sx %>|<%= for (v) in [1, 2, 3] { %><%= sx + v %>;<% } %>|<% let a = sx + 1 %><% let b = sx + 2 %><%= a %><%= b %>`,
+	// a promoted field of a value whose struct type differs from execution to execution
+	`<%= if (px) { %><%= px.Name %>|<%= px.Title %>|<%= for (i) in [1, 2] { %><%= px.Name %><% } %><% } else { %>no px<% } %>`,
 	`<%= 1 / 0 %>`,
 	`<%= 1 +`,
 	`<% if (true) { %>open`,
